@@ -13,8 +13,8 @@
 From Tibc Require Import Base.Bytes Base.FMap Host.Keys Host.KeysFacts Routing.Rules Packet.Types Packet.Keeper
   Net.Net Net.NetInv Apps.Path Apps.PathFacts Apps.Nft Apps.NftFacts Apps.Mt Apps.App Harness.AppNet
   Net.AppNetSim Net.AppNetNoSelf Apps.NftHistory Apps.NftHistoryThm Apps.NftEscrow
-  Net.NftCrossChain Net.NftCrossChain2 Net.NftSingleHolder.
-From Tibc Require Import Properties.Example Properties.C05HistNet Properties.C05HistSum.
+  Net.NftCrossChain Net.NftCrossChain2 Net.NftSingleHolder Net.NftSingleHolder2.
+From Tibc Require Import Properties.Example Properties.C05HistNet Properties.C05HistSum Properties.C04HistCross.
 
 (** REFUTED (finding D4).  Chain A has the native class "kitty" (token tom, held
     by alice) and -- issued by mallory, accepted by the NFT module because denom
@@ -123,3 +123,62 @@ Example C04_single_trace_invariant_nonvacuous :
   end.
 Proof. vm_compute. split; reflexivity. Qed.
 Print Assumptions C04_single_trace_invariant_nonvacuous.
+
+(** EXACT VOUCHER CREATION (conditional).  In an application-network history, a
+    step of the chain named nJ that creates the voucher (v, id), where v is the
+    voucher class on nJ of the '/'-free native class cl of the chain named nI, is a
+    receive of a packet p (or the refund of a back-send of nJ itself), and if p is
+    relay-free it is backed by a [UNftSend] of EXACTLY (cl, id) towards nJ on the
+    chain named nI, which found (cl, id) owned by the sender and left it owned by
+    the escrow account.  Premises beyond C04HistCross:
+    - [sends_roundtrip]: the harness decoder inverts the encoder on the data of
+      the NFT sends of this history (fails only for fields of 2^64 bytes or more);
+    - all chain names '/'-free (packet validation enforces it for names in packets);
+    - [paths_wf] in every reached state: the class path of every existing class
+      is the '/'-free class itself or a voucher path "nft/c1/../ck/b" with k >= 2
+      and '/'-free parts.  THIS IS THE PREMISE "no user-issued class contains '/'"
+      (finding D4) in the form the proof uses; it is assumed, not derived from the
+      user operations (the derivation needs the trace invariant above plus the
+      same fact about incoming packets, a network-wide induction not done here).
+      Without it: C04_single_holder_slash_refuted. *)
+Theorem C04_single_voucher_creation_exact :
+  forall (nft_escrow mt_escrow : bytes) (n0 : anet) (ops pre : list anop) (o : anop) (post : list anop)
+         (j : nat) (cj : chain app_state) (now : N) (h : hop) (c' : chain app_state) (ev : list event)
+         (nI nJ cl id : bytes),
+    hist_ok n0 ops -> Forall no_raw_nft_send ops -> sends_roundtrip nft_escrow mt_escrow n0 ops ->
+    (forall a k ck, nth_error (anrun nft_escrow mt_escrow n0 a) k = Some ck -> noslash (c_name app_state ck)) ->
+    (forall a k ck, nth_error (anrun nft_escrow mt_escrow n0 a) k = Some ck -> paths_wf (nft_of ck)) ->
+    noslash nI -> noslash cl -> c_name app_state cj = nJ ->
+    step_at nft_escrow mt_escrow n0 ops pre o post j cj now h c' ev -> not_setapp h ->
+    no_escrow_sig nft_escrow h -> VInv nft_escrow (nft_of cj) ->
+    let v := voucher_class idHh (away_new_class_path NFT_PFX nI nJ cl) in
+    is_voucher v = true ->
+    token_at (nft_of cj) v id = None -> token_at (nft_of c') v id <> None ->
+    (exists p pf hh, h = HOp (ORecv p pf hh) /\
+       (p_relay p = [] ->
+        exists k pre1 post1 now1 sender receiver relay contract ck ck' q uri,
+          step_at nft_escrow mt_escrow n0 ops pre1
+                  (AUser k now1 (UNftSend cl id sender receiver nJ relay contract)) post1
+                  k ck now1 (HUser (UNftSend cl id sender receiver nJ relay contract)) ck' [ESend q] /\
+          c_name app_state ck = nI /\ p_src p = nI /\ p_data q = p_data p /\ p_seq q = p_seq p /\
+          token_at (nft_of (with_now app_state ck now1)) cl id = Some (sender, uri) /\
+          token_at (nft_of ck') cl id = Some (nft_escrow, uri))) \/
+    (exists owner uri, is_refund_back idHh dec_nft h ev v id owner uri).
+Proof. exact voucher_creation_exact. Qed.
+Print Assumptions C04_single_voucher_creation_exact.
+
+(** instances of the premises on the credit history of C04HistCross.v: the codec
+    equation of [sends_roundtrip] for its send (state of A just before the send),
+    and [paths_wf] of the initial state *)
+Example C04_single_premises_nonvacuous :
+  match nth_error (anrun x_nesc x_mesc x_n0 (firstn 4 y_credit)) 0 with
+  | Some cA => dec_nft (p_data y_pkt) = send_record (with_now app_state cA 100) y_kitty y_tom y_alice y_bob nameB []
+  | None => False
+  end /\
+  paths_wf (nft_of (mk_achain nameA)) /\ noslash nameA /\ noslash nameB /\ noslash y_kitty.
+Proof.
+  split; [vm_compute; reflexivity|]. split.
+  - intros class fp HC. discriminate HC.
+  - repeat split; intros X; vm_compute in X; repeat (destruct X as [X|X]; [discriminate X|]); exact X.
+Qed.
+Print Assumptions C04_single_premises_nonvacuous.
